@@ -363,6 +363,12 @@ impl pipe::Sink for RespondStream {
         }
         .await
     }
+
+    async fn flush(&mut self) -> io::Result<()> {
+        // h2 sends the queued frames (the END_STREAM flag included) on its own, and an
+        // ended stream has no send capacity left to wait for
+        Ok(())
+    }
 }
 
 impl http_codec::DroppingSink for RespondStream {
